@@ -181,7 +181,7 @@ def lexer_next(F, res):
     from lib import inline as IL
     # with private helpers of the lexer module inlined (the span -> range conversion may be a helper)
     nx = IL.inlined(F, F.fn("<syntax::lexer::GleamLexer as core::iter::traits::iterator::Iterator>::next"),
-                    want=lambda p: p.startswith("syntax::lexer::"), depth=1)
+                    want=lambda p: p.startswith("syntax::lexer::") and "lex_string" not in p, depth=2)
     d = FL.Defs(nx)
     inner_next = [(b, t) for b, t in nx.calls() if (callee(t) or callee_def(t) or "").startswith("<logos::lexer::Lexer")
                   and (callee_def(t) or "").endswith("Iterator::next") or (callee(t) or "").endswith("Iterator>::next") and "logos" in (callee(t) or "")]
